@@ -161,6 +161,18 @@ UNIT = Unit(
            rewrites=[VC, PUSHED],
            obligation="let: with an annotation the value is checked against it and the pattern takes that type; without, the value is inferred and the pattern takes its type; unit",
            contract="ensures let_rule_ok(pat, *annotation, value, r, final(self).recorded()),"),
+        Fn(file=C, name="infer_struct_literal_expr", container="Typer", as_method_of="Typer", rename="struct_lit_tail", ret="r", attrs="#[verifier::loop_isolation(false)]",
+           rules=["attrs", "fmtmsg", ("strip", "tast::"), ("strip", "hir::"), ("strip", "common::"), ("strip", "super::util::"), "iter_map_collect"],
+           cut_from="let ret_ty = match &inst_constr_ty {", cut_tail="",
+           sig="pub fn struct_lit_tail(&mut self, expr_id: ExprId, constructor: Constructor, inst_constr_ty: Ty, args_tast: Vec<Expr>, elab_args: Vec<StructLitArgElab>) -> Expr",
+           pre_rewrites=[(re.compile(r"self\s*\.results\s*\.record_"), "self.record_", "*"),
+                         (re.compile(r"!(\w+)\.is_empty\(\)"), r"(\1.len() > 0)", "*")],
+           rewrites=[VC, PUSHED, (re.compile(r"params: \{ let mut (__mo\d+) = Vec::new\(\);"), r"params: { let mut \1: Vec<Ty> = Vec::new();", "*")],
+           obligation="struct literal: the value has the instantiated constructor's result type, and that instantiated type is equated with (types of the ordered field values) -> (that type)",
+           contract="ensures struct_lit_ok(inst_constr_ty, constructor, args_tast@, r, final(self).recorded()),",
+           loop_fn=lambda k, header, kw: (lambda mt: (f"invariant __mi{mt.group(1)} <= args_tast.len(), __mo{mt.group(1)}@.len() == __mi{mt.group(1)},\n"
+               f"  forall|j: int| 0 <= j < __mi{mt.group(1)} ==> #[trigger] __mo{mt.group(1)}@[j] == expr_ty(args_tast@[j]),\n decreases args_tast.len() - __mi{mt.group(1)},") if mt else None)(
+               re.search(r"while\s+__mi(\d+)\s*<\s*args_tast\.len\(\)", header))),
         whole("infer_field_expr",
               "ensures r matches Expr::EField { expr: b, field_name, ty, astptr: _ } && inferred(expr, *b) && field_name@ == field.text()\n"
               "  && exists|f: TastIdent| #[trigger] final(self).recorded().contains(Constraint::StructFieldAccess { expr_ty: expr_ty(*b), field: f, result_ty: ty }) && f.0@ == field.text(),",
